@@ -140,14 +140,9 @@ func (s *S) Derived(q *model.Query) {
 			}
 			fd := model.FromDoc(first)
 			if fd["_id"] != ids[0] {
-				// with ties in a sorted window another member of the tie group is still a correct first element
-				q1 := q.Clone()
-				q1.HasLimit, q1.Limit = true, 1
-				p, inc1 := model.CheckResult(q1, mc.Docs, []map[string]any{fd})
-				if q.EffSort() == nil || (p != "" && !inc1) {
-					s.viol("derived:findfirst", "FindFirst(%s) returned %v but FindAll starts with %v (%s)", name, fd["_id"], ids[0], p)
-					return
-				}
+				// the property is literal: FindFirst(q) is the first element of FindAll(q), also among equal sort keys
+				s.viol("derived:findfirst:"+planAll, "FindFirst(%s) returned %v but FindAll (plan %s) starts with %v", name, fd["_id"], planAll, ids[0])
+				return
 			}
 		}
 	}
@@ -186,17 +181,11 @@ func (s *S) Derived(q *model.Query) {
 			return
 		}
 		if strings.Join(seen, ",") != strings.Join(ids[:wantCalls], ",") {
-			ok := false
-			if q.EffSort() != nil && stop < 0 {
-				if p, _ := model.CheckResult(q, mc.Docs, seenDocs); p == "" {
-					ok = true // a different but correct arrangement of tie groups
-				}
-			}
-			if !ok {
-				s.viol("derived:foreach-sequence", "%s visited %v, FindAll returned %v", label, seen, ids)
-				return
-			}
+			// literal again: ForEach visits exactly the FindAll sequence
+			s.viol("derived:foreach-sequence", "%s visited %v, FindAll returned %v", label, seen, ids)
+			return
 		}
+		_ = seenDocs
 		stopClass := "all"
 		if stop >= 0 {
 			stopClass = "stop"
